@@ -301,6 +301,24 @@ def _run(ctx, cooler, split, B, pool, pool4, maps, thorough, rng, tmp):
                     ctx.fail(case2, {"visits": visits if isinstance(visits, str) else visits.tolist()}, None)
         os.remove(tmp / f"c{ci}.cool")
 
+    # ------------------------------------------------------------ use_lock=True (global multiprocess lock around the HDF5 read)
+    lock_cs = cases[1]
+    per, pixels, o = lock_cs["per"], lock_cs["pixels"], lock_cs["o"]
+    F = G.dense_int(sum(per), pixels)
+    b0, amb = G.ref_masks(o, per, F)
+    groups = G.ref_loop_float(o, per, F, b0)
+    if not amb and not G.near_tol(groups, o["tol"]):
+        wref = G.assemble(sum(per), groups, o["rescale"])
+        clr = G.build_cooler(tmp / "lock.cool", per, pixels)
+        for mname, mp in (("builtin", map), ("pool.imap_unordered", pool.imap_unordered), ("pool.map", pool.map)):
+            case = {"per": per, "pixels": pixels, "o": o, "chunk": 3, "map": mname, "use_lock": True, "rep": 0}
+            ctx.case(case, nontrivial=True, kind="use_lock:" + mname)
+            r = G.call_balance(clr, o, 3, mp, limit=120.0, use_lock=True)
+            nruns += 1
+            if isinstance(r, str) or not (G.vec_close(r["w"], wref, 1e-9) and stats_close(r, groups, o)):
+                ctx.fail(case, {"what": "use_lock=True", "result": r if isinstance(r, str) else [None if x != x else float(x) for x in r["w"]],
+                                "expected": [None if x != x else float(x) for x in wref]}, None)
+
     # ------------------------------------------------------------ CLI (imap_unordered pool inside)
     from click.testing import CliRunner
     from cooler.cli import cli
@@ -408,7 +426,7 @@ def replay(ctx, case):
         mp = getattr(pool, mname.split(".")[1])
     try:
         rec = Recorder(mp)
-        r = G.call_balance(clr, o, case.get("chunk"), rec)
+        r = G.call_balance(clr, o, case.get("chunk"), rec, **({"use_lock": True} if case.get("use_lock") else {}))
     finally:
         if pool is not None:
             pool.terminate()
